@@ -105,6 +105,9 @@ def main():
         for cls, detail, planted, mt in gfam.semantic_mutants(name, text):
             if mt:
                 cases.append({'kind': 'invalid', 'name': name, 'cls': cls, 'detail': detail, 'planted': planted, 'text': mt})
+        # an undefined name at every bare reference inside an expression
+        for cls, detail, planted, mt in gfam.reference_mutants(name, text, limit=None if (args.tier == 'thorough' or name in ('ks', 'multi') or name.startswith('m_')) else 12):
+            cases.append({'kind': 'invalid', 'name': name, 'cls': cls, 'detail': detail, 'planted': planted, 'text': mt})
         if name in ('ks', 'multi') or name.startswith('m_'):
             step = 1 if (args.tier == 'thorough' or name != 'ks') else 3
             for cls, detail, must, mt in gfam.syntax_mutants(name, text, step):
